@@ -25,8 +25,9 @@ def reference(root, fp, ep, fl, WM, Fm, Gm):
         if fl & a:
             common_f |= b
 
-    def pieces_of(pattern):
-        """top-level `|` pieces (the `|` inside parentheses belongs to a group)"""
+    def pieces_of(pattern, pathmode=False):
+        """top-level `|` pieces (the `|` inside parentheses belongs to a group, the `|` inside a bracket expression is a
+        member of the set; in path mode a `/` before the closing `]` means there is no bracket expression)"""
         out_, cur, depth, i = [], '', 0, 0
         while i < len(pattern):
             ch = pattern[i]
@@ -34,6 +35,19 @@ def reference(root, fp, ep, fl, WM, Fm, Gm):
                 cur += pattern[i:i + 2]
                 i += 2
                 continue
+            if ch == '[':
+                j = i + 1
+                if j < len(pattern) and pattern[j] in '!^':
+                    j += 1
+                if j < len(pattern) and pattern[j] == ']':
+                    j += 1
+                k = j
+                while k < len(pattern) and pattern[k] != ']' and not (pathmode and pattern[k] == '/'):
+                    k += 2 if pattern[k] == '\\' else 1
+                if k < len(pattern) and pattern[k] == ']':
+                    cur += pattern[i:k + 1]
+                    i = k + 1
+                    continue
             if ch == '(':
                 depth += 1
             elif ch == ')' and depth:
@@ -57,7 +71,7 @@ def reference(root, fp, ep, fl, WM, Fm, Gm):
             return 'SKIP'
         sym = '-' if fl & WM.MINUSNEGATE else '!'
         pos, neg = [], []
-        for pc in pieces_of(pattern):
+        for pc in pieces_of(pattern, pathmode):
             if pc.startswith(sym) and not (sym == '!' and fl & WM.EXTMATCH and pc.startswith('!(')):
                 neg.append(pc[1:])
             else:
@@ -126,7 +140,9 @@ def run(ctx):
     from wcmatch import wcmatch as WM, fnmatch as Fm, glob as Gm
     rng, seed = seeded_rng('c14')
     ctx.proof('Properties/C14.v')
-    fps = ['*.txt', '*', 'a*|*.py', '!a*', '*.txt|!a*', '', 'x', '**/*.txt', 'a/*', '*/x*', '[ab]*', '.*', '*.@(txt|py)', '{a,b}*', '-a*', 'A*', 'sub/*', '**/sub/*', '!*.txt|!*.py']
+    fps = ['*.txt', '*', 'a*|*.py', '!a*', '*.txt|!a*', '', 'x', '**/*.txt', 'a/*', '*/x*', '[ab]*', '.*', '*.@(txt|py)', '{a,b}*', '-a*', 'A*', 'sub/*', '**/sub/*', '!*.txt|!*.py',
+           # `|` inside a bracket expression does not split - unless (path mode) a `/` before the `]` means there is no bracket expression
+           'a[/|]b', '[x/|b]', 'a[|]b|*.py', '!*[|]*']
     eps = ['', 'a', 'sub|.h*', '*b*', 'a/b', '**/sub', '!a', 'skip*', 'real', 'd|e', 'A', '*/sub']
     flagsets = ('RECURSIVE', 'HIDDEN', 'SYMLINKS', 'FILEPATHNAME', 'DIRPATHNAME', 'MATCHBASE', 'GLOBSTAR', 'EXTMATCH', 'BRACE', 'IGNORECASE', 'MINUSNEGATE')
     allcases = []
@@ -136,6 +152,8 @@ def run(ctx):
     results = []
     for t in range(len(trees.DESIGNED) + (4 if ctx.quick else 40)):
         spec = trees.DESIGNED[t] if t < len(trees.DESIGNED) else trees.random_spec(rng, size=rng.randint(5, 14))
+        if t == 1:
+            spec = spec + [('a|b', 'f', None), (']b', 'f', None), ('b]', 'f', None), ('sub2', 'd', None), ('sub2/a|b', 'f', None), ('sub2/]b', 'f', None), ('sub2/a.py', 'f', None)]
         if t == 2:
             spec = spec + [('.h1', 'd', None), ('.h1/a.txt', 'f', None), ('.h2', 'd', None), ('.h2/b.txt', 'f', None), ('.h3', 'd', None), ('.h3/c.txt', 'f', None),
                            ('skip1', 'd', None), ('skip1/a.txt', 'f', None), ('skip2', 'd', None), ('skip2/b.txt', 'f', None)]
